@@ -153,9 +153,16 @@ def roundtrip_case(rep, rng, thorough, tmpdir):
 			if via == 'dict':
 				d = net.to_dict()
 				s = json.dumps(d, default=serialize_set)
-				net2 = SupplyChainNetwork.from_dict(json.loads(s, object_hook=deserialize_set))
-				if not with_sv:
-					pass
+				d_in = json.loads(s, object_hook=deserialize_set)
+				d_ref = copy.deepcopy(d_in)
+				net2 = SupplyChainNetwork.from_dict(d_in)
+				# decoding reads its argument: the dict is unchanged afterwards and can be decoded again with the same result
+				if d_in != d_ref:
+					bad.append('from_dict altered the dict it was given')
+				net2b = SupplyChainNetwork.from_dict(d_in)
+				again = attr_diffs(net2, net2b)
+				if again:
+					bad.append('decoding the same dict a second time gives a different network: ' + '; '.join(again[:2]))
 			else:
 				path = os.path.join(tmpdir, 'inst_%d.json' % rng.randint(0, 10 ** 9))
 				save_instance('case', net, 'x', filepath=path, omit_state_vars=not with_sv)
